@@ -400,6 +400,49 @@ pub fn check_surround(c: &SurroundCase, acc: &mut Acc, record: bool) -> Verdict 
     Verdict::Pass
 }
 
+/// compressed blocks whose header lies about the uncompressed length: the bytes handed back must all come from the
+/// inflated stream (allocator pre-fill oracle)
+#[derive(Debug, Clone, Serialize, Deserialize)]
+pub struct FrameCase {
+    pub content: Vec<u8>,
+    pub level: u32,
+    pub declared: u32,
+}
+
+fn frame_strategy() -> BoxedStrategy<FrameCase> {
+    (proptest::collection::vec(any::<u8>(), 0..300), 0u32..=9, prop_oneof![0u32..400, prop::sample::select(vec![4096u32, 65535, 65536, 65537, 100_000])]).prop_map(|(content, level, declared)| FrameCase { content, level, declared }).boxed()
+}
+
+pub fn check_frame(c: &FrameCase, acc: &mut Acc, record: bool) -> Verdict {
+    use desert::{BinaryInput, BinaryOutput};
+    let mut z = Vec::new();
+    z.write_compressed(&c.content, flate2::Compression::new(c.level)).expect("compress");
+    // replace the first varint (uncompressed length) by the declared one
+    let mut p = 0;
+    while z[p] & 0x80 != 0 {
+        p += 1;
+    }
+    let mut frame = vmodel::refcodec::var_u32_bytes(c.declared);
+    frame.extend_from_slice(&z[p + 1..]);
+    if record {
+        let class = if c.declared as usize > c.content.len() { "compressed block: header overstates the length" } else { "compressed block: header understates / matches" };
+        acc.case(class, hash_json(c), c.declared as usize != c.content.len());
+        if acc.wants_sample(class) {
+            acc.sample(class, json!({"content_len": c.content.len(), "declared": c.declared, "level": c.level}));
+        }
+    }
+    let run = |poison: u8| crate::alloc::with_poison(poison, || crate::run::guarded(|| desert::SliceInput::new(&frame).read_compressed().map_err(|e| vcat::errinfo(&e).kind)));
+    let (a, b) = (run(0x53), run(0xAC));
+    match (&a, &b) {
+        (Ok(x), Ok(y)) if x == y => match x {
+            // raw deflate has no checksum, but an intact stream inflates to what was compressed
+            Ok(bytes) if *bytes != c.content => Verdict::Fail(format!("an intact deflate stream of {} bytes with declared length {} was read as {} bytes", c.content.len(), c.declared, bytes.len())),
+            _ => Verdict::Pass,
+        },
+        _ => Verdict::Fail(format!("read_compressed with declared length {} over a stream of {} bytes returns data that depends on the content of fresh heap memory ({:?} vs {:?}): uninitialised memory is exposed", c.declared, c.content.len(), a.as_ref().map(|r| r.as_ref().map(|v| v.len())), b.as_ref().map(|r| r.as_ref().map(|v| v.len())))),
+    }
+}
+
 pub fn run_c19(cx: &Cx) -> PropResult {
     let per_shard = cx.n(40_000, 1_000_000);
     let lines = std::sync::Mutex::new(Vec::new());
@@ -412,13 +455,17 @@ pub fn run_c19(cx: &Cx) -> PropResult {
         if drive(tag_seed(derive_seed(cx.seed, cx.prop, shard as u64, 0), 0), &strat, per_shard, acc, &|c: &UnsafeCase| to_json(c), &mut |c, a, r| check_unsafe(c, a, r)) {
             return;
         }
+        let strat = frame_strategy();
+        if drive(tag_seed(derive_seed(cx.seed, cx.prop, shard as u64, 2), 2), &strat, per_shard / 8, acc, &|c: &FrameCase| to_json(&json!({"Frame": c})), &mut |c, a, r| check_frame(c, a, r)) {
+            return;
+        }
         let strat = surround_strategy();
         drive(tag_seed(derive_seed(cx.seed, cx.prop, shard as u64, 1), 1), &strat, per_shard / 2, acc, &|c: &SurroundCase| to_json(&json!({"Surround": c})), &mut |c, a, r| check_surround(c, a, r));
     });
     let mut r = PropResult::new(
         acc,
         "exploration",
-        "(1) client programs: witnesses from a template grammar — API path (State::store_ref -> get_ref_by_id, SerializationContext::store_ref_or_object -> get_ref_by_id, store_ref -> DeserializationContext::try_read_ref, read_bytes on SliceInput / OwnedInput / DeserializationContext, a table reference outliving its context) x how the referent dies (inner scope ends, drop, moved into a callee, Vec reallocation / second mutable use) x referent type (String, Vec<u8>, Box<u64>, Rc<String>) — each a crate root with #![forbid(unsafe_code)] compiled by rustc against the freshly built desert rlib; every witness has a control twin that keeps the referent alive and must compile. Oracle: the witness is rejected with a borrow/lifetime error; a witness that compiles refutes the property. (2) inputs to the decoding paths written with unsafe code ([T; N] for T in u8, u32, String, Vec<u16>, Option<Box<u64>>, i8, bool, () and N in 0, 1, 3, 16, 17, 33; Vec<u8> / Vec<T>; Bytes; BigInt): valid, count-mismatched, truncated and tampered encodings; every Ok must equal the reference decoder's value (content that does not come from the input is caught without a sanitizer) and must not change when the allocator pre-fills fresh heap memory with 0x53 / 0xAC (uninitialised memory reaching a result is caught without Miri); the thorough tier repeats this corpus under AddressSanitizer (libFuzzer target) and Miri. (3) reads stay inside the supplied buffer: tampered and raw inputs for run-time struct declarations are decoded — by deserialize and by a tolerant client that keeps reading fields with the same AdtDeserializer after a field failed — inside two different surroundings (canary bytes 0x53 / 0xAC before and after the slice); the outcomes must be identical (a process killed by an out-of-range access is reported by the supervisor). Non-trivial = witness whose control compiles; input whose count / length differs from what the target expects.",
+        "(1) client programs: witnesses from a template grammar — API path (State::store_ref -> get_ref_by_id, SerializationContext::store_ref_or_object -> get_ref_by_id, store_ref -> DeserializationContext::try_read_ref, read_bytes on SliceInput / OwnedInput / DeserializationContext, a table reference outliving its context) x how the referent dies (inner scope ends, drop, moved into a callee, Vec reallocation / second mutable use) x referent type (String, Vec<u8>, Box<u64>, Rc<String>) — each a crate root with #![forbid(unsafe_code)] compiled by rustc against the freshly built desert rlib; every witness has a control twin that keeps the referent alive and must compile. Oracle: the witness is rejected with a borrow/lifetime error; a witness that compiles refutes the property. (2) inputs to the decoding paths written with unsafe code ([T; N] for T in u8, u32, String, Vec<u16>, Option<Box<u64>>, i8, bool, () and N in 0, 1, 3, 16, 17, 33; Vec<u8> / Vec<T>; Bytes; BigInt): valid, count-mismatched, truncated and tampered encodings; every Ok must equal the reference decoder's value (content that does not come from the input is caught without a sanitizer) and must not change when the allocator pre-fills fresh heap memory with 0x53 / 0xAC (uninitialised memory reaching a result is caught without Miri); the thorough tier repeats this corpus under AddressSanitizer (libFuzzer target) and Miri. (2b) compressed blocks whose header overstates / understates the uncompressed length, read under the same allocator pre-fill oracle. (3) reads stay inside the supplied buffer: tampered and raw inputs for run-time struct declarations are decoded — by deserialize and by a tolerant client that keeps reading fields with the same AdtDeserializer after a field failed — inside two different surroundings (canary bytes 0x53 / 0xAC before and after the slice); the outcomes must be identical (a process killed by an out-of-range access is reported by the supervisor). Non-trivial = witness whose control compiles; input whose count / length differs from what the target expects.",
     );
     r.lines = lines.into_inner().unwrap();
     r.assumptions = vec![
@@ -441,6 +488,10 @@ pub fn replay_c19(case: &Value) -> Verdict {
             Err(e) => Verdict::Fail(e),
         };
     }
+    if let Some(f) = case.get("Frame") {
+        let c: FrameCase = serde_json::from_value(f.clone()).expect("replay case");
+        return check_frame(&c, &mut Acc::new(), false);
+    }
     if let Some(sc) = case.get("Surround") {
         let c: SurroundCase = serde_json::from_value(sc.clone()).expect("replay case");
         return check_surround(&c, &mut Acc::new(), false);
@@ -449,11 +500,3 @@ pub fn replay_c19(case: &Value) -> Verdict {
     check_unsafe(&c, &mut Acc::new(), false)
 }
 
-pub fn regen_c19(cx: &Cx, shard: usize, stream: u64, index: u64) -> Option<Value> {
-    use crate::run::regen;
-    match stream {
-        0 => Some(to_json(&regen(tag_seed(derive_seed(cx.seed, cx.prop, shard as u64, 0), 0), &unsafe_case_strategy(), index))),
-        1 => Some(json!({"Surround": regen(tag_seed(derive_seed(cx.seed, cx.prop, shard as u64, 1), 1), &surround_strategy(), index)})),
-        _ => None,
-    }
-}
